@@ -19,4 +19,5 @@ func verifEnd(vm *VM)                            {}
 func verifSpawn(vm, child *VM)                   {}
 func verifWatcher(vm *VM)                        {}
 func verifAfterSelect(vm *VM)                    {}
+func verifDoneSelect(vm *VM)                     {}
 func verifCallNative(vm *VM, fn *NativeFunction) {}
